@@ -5,7 +5,7 @@ import os
 from . import common as C
 
 LEVEL_TEXT = {
-    "C01": ("exploration", "Model-based property test: rapidcheck-generated call histories over four interacting containers are executed against std::vector<int> models; values, sizes, returned positions/references and at() behaviour are compared after every operation, across 18 (quick) / ~50 (thorough) configurations of element flavour x inline capacities x allocator. Inputs of a different value type (68 From->To pairs x 11 iterator kinds x range ctor/assign/insert/append/emplace) are compared with the same call on std::vector<To>. Search, not proof.", "§4 C01"),
+    "C01": ("exploration", "Model-based property test: rapidcheck-generated call histories over four interacting containers are executed against std::vector<int> models; values, sizes, returned positions/references and at() behaviour are compared after every operation, across 18 (quick) / ~50 (thorough) configurations of element flavour x inline capacities x allocator. Inputs of a different value type (72 From->To pairs x 11 iterator kinds x range ctor/assign/insert/append/emplace) are compared with the same call on std::vector<To>. Search, not proof.", "§4 C01"),
     "C02": ("exploration", "Invariant probe (size/capacity/inlined/data()-inside-object/ledger block/contiguity/iterator agreement/canaries) evaluated on every container after every generated operation, including moved-from and shrunk-back states; post-throw states are covered by the C06 fault enumeration which runs the same probe.", "§4 C02"),
     "C03": ("exploration", "Address-keyed element registry traps construct-over-live, destroy/assign/read of dead storage; after every operation the live set must be exactly the containers' elements, and empty after teardown.", "§4 C03"),
     "C04": ("exploration", "Allocator ledger (block, n, allocating id) traps unknown/mismatched deallocation; after every operation live blocks must be exactly the heap containers' buffers; allocate calls are counted per operation against the 'fits => no allocate' rule, and a small-only generator mode checks that containers that never exceed N never touch the allocator.", "§4 C04"),
@@ -16,7 +16,7 @@ LEVEL_TEXT = {
     "C10": ("exploration", "Per-operation oracle: if the result fits the prior capacity then capacity()/data() are unchanged and the element registry shows zero events on the prefix; reserve/erase/clear rules; at most one allocate and one relocation per old element for calls that know their count.", "§4 C10"),
     "C11": ("exploration", "Metamorphic relation: an aliasing call must equal copy-then-call on the model, over generated (i, pos, n, state) with alias-heavy weights.", "§4 C11"),
     "C12": ("exploration", "Exhaustive enumeration for the 8-bit size_type (every size, operation, count/range length up to and beyond the numeric maximum, three positions) plus boundary grids and rapidcheck boundary-biased cases for 16/32-bit size_types and allocators with max_size()=1000, in an assert-enabled and an NDEBUG build: length_error, no effect, allocate(n) <= max_size(), size() <= max_size(), no wrapped arithmetic (ASan).", "§4 C12"),
-    "C13": ("exploration", "Differential: the same generated program runs on a non-trivial element type and on its trivially copyable twin; full observation traces (values, sizes, capacities, data() stability, allocate counts) must be identical; object canaries and ASan guard bytes outside storage. Plus a converting-input differential (68 From->To pairs x 11 iterator kinds x operations, values vs static_cast and vs std::vector<To>, four builds) and compile probes over minimal-requirement archetypes (trivial twin must compile whenever the non-trivial one does).", "§4 C13"),
+    "C13": ("exploration", "Differential: the same generated program runs on a non-trivial element type and on its trivially copyable twin; full observation traces (values, sizes, capacities, data() stability, allocate counts) must be identical; object canaries and ASan guard bytes outside storage. Plus a converting-input differential (72 From->To pairs x 11 iterator kinds x operations, values vs static_cast and vs std::vector<To>, four builds) and compile probes over minimal-requirement archetypes (trivial twin must compile whenever the non-trivial one does).", "§4 C13"),
     "C14": ("exploration", "Growth probe on every reallocating listed call: new capacity >= required and >= 1.5x old unless saturated at max_size().", "§4 C14"),
     "C15": ("exploration", "Instrumented single-pass iterators (shared cursor) trap double dereference, skipped positions, stale copies and access at/past last; multi-pass iterators trap walking outside [first,last]; generator call log; result compared with the model.", "§4 C15"),
     "C16": ("exploration", "Exhaustive differential test against std::vector over all pairs of small contents x capacity pairs x four element types for ==, !=, <, <=, >, >= and <=>, with consistency laws, in four builds (g++/clang++ x C++17/C++20) whose verdict tables are cross-checked; non-member erase/erase_if/swap/accessors; rapidcheck contents beyond the bound.", "§4 C16"),
